@@ -12,10 +12,6 @@ specification answers next to the answers of the real Go code.
 namespace Zrnt.Proofs.C20
 open Zrnt Zrnt.Pool Zrnt.Pool.Spec
 
-/-- two attestation data used in the examples and witnesses -/
-def d1 : AttData := ⟨1, 0, 0, 1⟩
-def d2 : AttData := ⟨1, 0, 0, 2⟩
-
 /-! ## 1. no panic -/
 
 /-- No sequence of operations on freshly constructed pools reaches a panic (nil-map write, nil
@@ -55,52 +51,14 @@ each sync-committee buffer holds only items of its own slot (`currentSlot − 1`
 `currentSlot + 1`, wrapping). -/
 theorem indexes_consistent (ops : List Op) :
     (Pools.run Cfg.fixed (Pools.new Cfg.fixed) ops).1.Consistent :=
-  consistent_of_inv (reachable_related ops)
+  consistent_of_inv (reach_related ops)
 
 /-! ## 4. consequences for the model, by the refinement
 
-`reach ops` is the model state after `ops` on fresh pools; `answer w op` is what the model answers. -/
-
-/-- the model state reached by `ops` from the constructors -/
-abbrev reach (ops : List Op) : Pools := (Pools.run Cfg.fixed (Pools.new Cfg.fixed) ops).1
-/-- the model's answer to `op` in state `w` -/
-abbrev answer (w : Pools) (op : Op) : Out := (w.step Cfg.fixed op).2
-/-- the model state after `op` -/
-abbrev after (w : Pools) (op : Op) : Pools := (w.step Cfg.fixed op).1
-/-- the model state after `ops` -/
-abbrev afterAll (w : Pools) (ops : List Op) : Pools := (w.run Cfg.fixed ops).1
-
-/-- the specification state that belongs to `reach ops` -/
-abbrev sreach (ops : List Op) : SPools := (SPools.run SPools.new ops).1
-
-theorem reach_related (ops : List Op) : PoolsInv (reach ops) (sreach ops) := reachable_related ops
-
-theorem after_related {w : Pools} {sw : SPools} (h : PoolsInv w sw) (op : Op) :
-    PoolsInv (after w op) (sw.step op).1 := (step_sim h op).1
-
-theorem afterAll_related {w : Pools} {sw : SPools} (h : PoolsInv w sw) (ops : List Op) :
-    PoolsInv (afterAll w ops) (sw.run ops).1 := (run_sim h ops).1
-
-theorem answer_equiv {w : Pools} {sw : SPools} (h : PoolsInv w sw) (op : Op) :
-    OutEquiv (answer w op) (sw.step op).2 := (step_sim h op).2
-
-theorem spec_ok_of_answer_ok {w : Pools} {sw : SPools} (h : PoolsInv w sw) {op : Op}
-    (hok : answer w op = .ok) : (sw.step op).2 = .ok := by
-  have := answer_equiv h op
-  rw [hok] at this
-  exact OutEquiv.ok_iff.mp this.symm
-
-theorem answer_err_of_spec_err {w : Pools} {sw : SPools} (h : PoolsInv w sw) {op : Op}
-    (herr : (sw.step op).2 = .err) : answer w op = .err := by
-  have := answer_equiv h op
-  rw [herr] at this
-  exact OutEquiv.err_iff.mp this
-
-theorem answer_ok_of_spec_ok {w : Pools} {sw : SPools} (h : PoolsInv w sw) {op : Op}
-    (hok : (sw.step op).2 = .ok) : answer w op = .ok := by
-  have := answer_equiv h op
-  rw [hok] at this
-  exact OutEquiv.ok_iff.mp this
+Notation (abbreviations from `Proofs.Lemmas.PoolCor`): `reach ops` is the model state after `ops` on freshly
+constructed pools (`Cfg.fixed`), `sreach ops` the specification state after the same `ops`,
+`answer w op` the model's answer to `op` in state `w`, `after w op` / `afterAll w ops` the model state
+after `op` / after `ops`. -/
 
 /-- **Prune is exact.** `Prune e` removes exactly the aggregates with target epoch `< e − 1` (saturating:
 `e ≤ 1` removes nothing): every `Search` after it returns the items of the same `Search` before it that
@@ -116,6 +74,13 @@ theorem prune_exact (ops : List Op) (e : Nat) (s i : Option Nat) :
   have : Spec.search (Spec.prune (sreach ops).att e) s i =
       (Spec.search (sreach ops).att s i).filter (fun a => !decide (a.data.target < e - 1)) := search_prune _ _ _ _
   exact p2.trans (this ▸ (p1.filter _).symm)
+
+/-- non-vacuity: target epoch 0 survives `Prune 1`, is removed by `Prune 2`; target 1 survives `Prune 2` -/
+example : (Pools.run Cfg.fixed (Pools.new Cfg.fixed)
+    [.att ⟨exD1, [0x07], 5⟩ [10, 11], .att ⟨⟨9, 0, 1, 3⟩, [0x07], 6⟩ [10, 11], .prune 1, .search none (some 0),
+     .prune 2, .search none none]).2
+    = [.ok, .ok, .ok, .atts [⟨⟨9, 0, 1, 3⟩, [0x07], 6⟩, ⟨exD1, [0x07], 5⟩], .ok, .atts [⟨⟨9, 0, 1, 3⟩, [0x07], 6⟩]] := by
+  decide
 
 /-- `Prune 0` and `Prune 1` remove nothing (`epoch.Previous()` saturates at 0). -/
 theorem prune_saturates (ops : List Op) (e : Nat) (he : e ≤ 1) (s i : Option Nat) :
@@ -135,6 +100,8 @@ theorem search_complete (ops : List Op) (d : AttData) (b : Bits) (sg : Nat) (c :
     ∃ l, answer (reach ops) (.search s i) = .atts l ∧ (⟨d, b, sg⟩ : Att) ∈ l := by
   obtain ⟨l, hl, p⟩ := OutEquiv.atts_iff.mp (answer_equiv (reach_related ops) (.search s i))
   exact ⟨l, hl, p.mem_iff.mpr ((mem_search_iff _ s i ⟨d, b, sg⟩).mpr ⟨hm, c, hacc⟩)⟩
+
+example : Ev.agg exD1 [0x07] 5 [10, 11] ∈ (sreach [.att ⟨exD1, [0x07], 5⟩ [10, 11]]).att := by decide
 
 theorem search_complete_unfiltered (ops : List Op) (d : AttData) (b : Bits) (sg : Nat) (c : List Nat)
     (hacc : Ev.agg d b sg c ∈ (sreach ops).att) :
@@ -181,6 +148,9 @@ theorem first_aggregate_searchable (ops mid : List Op) (a : Att) (c : List Nat)
   have hrel := afterAll_related (after_related h (.att a c)) mid
   obtain ⟨l, hl, p⟩ := OutEquiv.atts_iff.mp (answer_equiv hrel (.search none none))
   exact ⟨l, hl, p.mem_iff.mpr ((mem_search_iff _ none none a).mpr ⟨rfl, c, hper⟩)⟩
+
+example : exD1 ∉ (reach []).att.aggregate.keys ∧ 2 ≤ onesCount [0x07] ∧
+    answer (reach []) (.att ⟨exD1, [0x07], 5⟩ [10, 11]) = .ok := by decide
 
 /-- Every accepted attester slashing is listed by `All()` from then on. -/
 theorem accepted_attester_slashing_listed (ops mid : List Op) (a b : Nat)
@@ -236,6 +206,10 @@ theorem accepted_exit_listed (ops mid : List Op) (v ep : Nat)
   simp only [SPools.step, keyedAdd, List.append_assoc, List.singleton_append]
   exact mem_keyedAll_of_first List.not_mem_nil hk
 
+example : answer (reach []) (.aslash 1 2) = .ok ∧ answer (reach [.pslash 7 1]) (.pslash 7 2) = .err ∧
+    answer (reach [.pslash 7 1, .pslash 7 2, .pslash 8 3]) .pslashes = .pairs [(8, 3), (7, 1)] ∧
+    answer (reach [.exit 4 9]) (.exit 5 9) = .ok := by decide
+
 /-- **Search is sound.** Every item `Search` returns matches the filter and was added by an earlier
 `AddAttestation` call with exactly that data, bits and signature which was answered `ok`, and no `Prune e`
 with `target < e − 1` came after it. -/
@@ -278,9 +252,9 @@ theorem dup_absorbed (ops rest : List Op) (a : Att) (c : List Nat)
 
 /-- non-vacuity, also for the second and third aggregate of a data (`Search` still returns 3 items) -/
 example : (Pools.run Cfg.fixed (Pools.new Cfg.fixed)
-    [.att ⟨d1, [0x13], 5⟩ [1, 2, 3, 4], .att ⟨d1, [0x16], 6⟩ [1, 2, 3, 4], .att ⟨d1, [0x1c], 7⟩ [1, 2, 3, 4],
-     .att ⟨d1, [0x1c], 7⟩ [1, 2, 3, 4], .att ⟨d1, [0x16], 6⟩ [1, 2, 3, 4], .search none none]).2
-    = [.ok, .ok, .ok, .ok, .ok, .atts [⟨d1, [0x13], 5⟩, ⟨d1, [0x16], 6⟩, ⟨d1, [0x1c], 7⟩]] := by decide
+    [.att ⟨exD1, [0x13], 5⟩ [1, 2, 3, 4], .att ⟨exD1, [0x16], 6⟩ [1, 2, 3, 4], .att ⟨exD1, [0x1c], 7⟩ [1, 2, 3, 4],
+     .att ⟨exD1, [0x1c], 7⟩ [1, 2, 3, 4], .att ⟨exD1, [0x16], 6⟩ [1, 2, 3, 4], .search none none]).2
+    = [.ok, .ok, .ok, .ok, .ok, .atts [⟨exD1, [0x13], 5⟩, ⟨exD1, [0x16], 6⟩, ⟨exD1, [0x1c], 7⟩]] := by decide
 
 /-- **A conflicting second vote is reported.** After an individual attestation by validator `v` for data
 `d₁` was accepted, a later individual attestation by `v` with the same target epoch for different data
@@ -422,37 +396,55 @@ theorem getBit_spec (b : Bits) (i : Nat) (h : i < bitlistLen b) :
   rw [getBit_of_lt_bitlistLen h]
   simp [toBools, List.getD, h]
 
+/-- `SyncCommitteeMessages.Select` on a buffer whose keys are unique and equal the validator of the stored
+message (every buffer of a reachable pool, by `indexes_consistent`) returns, in member order, exactly the
+members whose stored message is for `root`, and does not panic for members without a message. -/
+theorem select_spec (b : MsgBuf) (hn : b.keys.Nodup) (hkey : ∀ e ∈ b.entries, e.1 = e.2.validator)
+    (root : Nat) (members : List Nat) :
+    select Cfg.fixed b root members = .ok (Spec.select (msgsOf b) root members) := select_spec' hn hkey root members
+
+example : select Cfg.fixed ((GoMap.make.insert 1 ⟨1, 1, 5⟩).insert 2 ⟨1, 2, 6⟩) 5 [2, 1, 3] = .ok [1] := by decide
+
+/-- FINDING (driver-level specification of `select`, not the pool): `Spec.select` applied to the *raw list*
+of a `select` line is not what Go computes when the list names a validator twice with different roots —
+the Go map (and the model's `msgBuf`) keeps the later message only. Witness line: `select 5 1 1:5,1:6`
+(model and Go `ok -`, `Spec.select` on the raw list `ok 1`). On the list of messages a buffer actually
+holds (`msgsOf b`) the two agree (`select_spec`). -/
+theorem select_rawlist_spec_mismatch :
+    select Cfg.fixed ((GoMap.make.insert 1 ⟨1, 1, 5⟩).insert 1 ⟨1, 1, 6⟩) 5 [1] = .ok [] ∧
+    Spec.select [⟨1, 1, 5⟩, ⟨1, 1, 6⟩] 5 [1] = [1] := by decide
+
 /-! ## 6. the defects of the code before the `fix:` commits (`Cfg.old`), each on a concrete witness -/
 
 
 /-- `NewAttestationPool` left `aggPerValidator` nil: the first aggregate attestation panics. -/
 theorem old_first_aggregate_panics :
-    (Pools.run Cfg.old (Pools.new Cfg.old) [.att ⟨d1, [0x07], 5⟩ [10, 11]]).2 = [.panic] := by decide
+    (Pools.run Cfg.old (Pools.new Cfg.old) [.att ⟨exD1, [0x07], 5⟩ [10, 11]]).2 = [.panic] := by decide
 
 /-- `Search` dereferenced the missing `aggregate` entry of data known only from an individual attestation. -/
 theorem old_search_after_single_panics :
-    (Pools.run Cfg.old (Pools.new Cfg.old) [.att ⟨d1, [0x05], 5⟩ [10, 11], .search none none]).2
+    (Pools.run Cfg.old (Pools.new Cfg.old) [.att ⟨exD1, [0x05], 5⟩ [10, 11], .search none none]).2
       = [.ok, .panic] := by decide
 
 /-- No length check: an aggregate with a 1-byte bitfield and a 10-member committee reads bit 8 and panics
 (with the other defects repaired, to isolate this one). -/
 theorem old_short_bitfield_panics :
     (Pools.run { Cfg.fixed with aggLenCheck := false } (Pools.new Cfg.fixed)
-      [.att ⟨d1, [0x07], 5⟩ [1, 2, 3, 4, 5, 6, 7, 8, 9, 10]]).2 = [.panic] := by decide
+      [.att ⟨exD1, [0x07], 5⟩ [1, 2, 3, 4, 5, 6, 7, 8, 9, 10]]).2 = [.panic] := by decide
 
 /-- `Participants` was not OR-ed: after aggregates A, B a second B is stored again; `Search` returns 3 items. -/
 theorem old_duplicate_aggregate_stored :
     (Pools.run { Cfg.fixed with orParticipants := false } (Pools.new Cfg.fixed)
-      [.att ⟨d1, [0x13], 5⟩ [1, 2, 3, 4], .att ⟨d1, [0x1c], 6⟩ [1, 2, 3, 4], .att ⟨d1, [0x1c], 6⟩ [1, 2, 3, 4],
+      [.att ⟨exD1, [0x13], 5⟩ [1, 2, 3, 4], .att ⟨exD1, [0x1c], 6⟩ [1, 2, 3, 4], .att ⟨exD1, [0x1c], 6⟩ [1, 2, 3, 4],
        .search none none]).2
-      = [.ok, .ok, .ok, .atts [⟨d1, [0x13], 5⟩, ⟨d1, [0x1c], 6⟩, ⟨d1, [0x1c], 6⟩]] := by decide
+      = [.ok, .ok, .ok, .atts [⟨exD1, [0x13], 5⟩, ⟨exD1, [0x1c], 6⟩, ⟨exD1, [0x1c], 6⟩]] := by decide
 
 /-- the same history on the fixed code: the duplicate is absorbed -/
 theorem fixed_duplicate_aggregate_absorbed :
     (Pools.run Cfg.fixed (Pools.new Cfg.fixed)
-      [.att ⟨d1, [0x13], 5⟩ [1, 2, 3, 4], .att ⟨d1, [0x1c], 6⟩ [1, 2, 3, 4], .att ⟨d1, [0x1c], 6⟩ [1, 2, 3, 4],
+      [.att ⟨exD1, [0x13], 5⟩ [1, 2, 3, 4], .att ⟨exD1, [0x1c], 6⟩ [1, 2, 3, 4], .att ⟨exD1, [0x1c], 6⟩ [1, 2, 3, 4],
        .search none none]).2
-      = [.ok, .ok, .ok, .atts [⟨d1, [0x13], 5⟩, ⟨d1, [0x1c], 6⟩]] := by decide
+      = [.ok, .ok, .ok, .atts [⟨exD1, [0x13], 5⟩, ⟨exD1, [0x1c], 6⟩]] := by decide
 
 /-- `NewSyncCommitteePool` left the buffers nil while slot 0 is the "next" slot of a new pool. -/
 theorem old_smsg_slot0_panics :
@@ -465,6 +457,6 @@ theorem old_select_missing_member_panics : select Cfg.old .make 7 [3] = .panic :
 theorem old_not_pool_no_panic :
     ¬ ∀ ops, ∀ o ∈ (Pools.run Cfg.old (Pools.new Cfg.old) ops).2, o ≠ Out.panic := by
   intro h
-  exact h [.att ⟨d1, [0x07], 5⟩ [10, 11]] .panic (by decide) rfl
+  exact h [.att ⟨exD1, [0x07], 5⟩ [10, 11]] .panic (by decide) rfl
 
 end Zrnt.Proofs.C20
